@@ -435,6 +435,7 @@ type FuncSpec struct {
 	Impl     string // "Iface.Method" this method implements
 	Loops    map[int]*LoopSpec
 	Uses     []*CE // axiom / lemma instantiations assumed at entry
+	UsesRet  []*CE // ... assumed at every return (post-state, results in scope)
 	Props    []string
 	Body     *CE    // define / axiom body
 	RetSort  string // define result sort
@@ -858,6 +859,12 @@ func (sp *Specs) parseFile(path string) error {
 				cur.Props = append(cur.Props, strings.Fields(strings.ReplaceAll(rest, ",", " "))...)
 			case "note":
 				cur.Notes = append(cur.Notes, rest)
+			case "useatret":
+				e, err := parseCE(rest)
+				if err != nil {
+					return errf("%v", err)
+				}
+				cur.UsesRet = append(cur.UsesRet, e)
 			case "use":
 				e, err := parseCE(rest)
 				if err != nil {
